@@ -1326,10 +1326,38 @@ private:
           str += '\t';
           break;
         case 'u':
-          // Unicode escape - simplified implementation
-          _pos += 4;  // Skip the 4 hex digits for now
-          str += '?'; // Placeholder
+        {
+          // \uXXXX (RFC 8259 section 7): decode to UTF-8, combining a high/low
+          // surrogate pair into one code point. An unpaired surrogate cannot be
+          // represented in UTF-8 and decodes to U+FFFD.
+          unsigned cp = 0;
+          if (!_parseHex4(_pos + 1, cp))
+          {
+            _error = "Invalid unicode escape";
+            return false;
+          }
+          _pos += 4; // now on the last hex digit; the loop's ++_pos steps past it
+          if (cp >= 0xD800 && cp <= 0xDBFF)
+          {
+            unsigned lo = 0;
+            if (_pos + 2 < _text.size() && _text[_pos + 1] == '\\' && _text[_pos + 2] == 'u' &&
+                _parseHex4(_pos + 3, lo) && lo >= 0xDC00 && lo <= 0xDFFF)
+            {
+              cp = 0x10000 + ((cp - 0xD800) << 10) + (lo - 0xDC00);
+              _pos += 6;
+            }
+            else
+            {
+              cp = 0xFFFD;
+            }
+          }
+          else if (cp >= 0xDC00 && cp <= 0xDFFF)
+          {
+            cp = 0xFFFD;
+          }
+          _appendUtf8(str, cp);
           break;
+        }
         default:
           _error = "Invalid escape sequence";
           return false;
@@ -1351,6 +1379,58 @@ private:
     ++_pos; // Skip closing quote
     out = Json(std::move(str));
     return true;
+  }
+
+  /// Parse exactly four hex digits at [at, at+4); false if truncated or not hex.
+  bool _parseHex4(std::size_t at, unsigned &out) const
+  {
+    if (at > _text.size() || _text.size() - at < 4)
+    {
+      return false;
+    }
+    unsigned v = 0;
+    for (std::size_t i = 0; i < 4; ++i)
+    {
+      const char c = _text[at + i];
+      unsigned d;
+      if (c >= '0' && c <= '9')
+        d = static_cast<unsigned>(c - '0');
+      else if (c >= 'a' && c <= 'f')
+        d = static_cast<unsigned>(c - 'a' + 10);
+      else if (c >= 'A' && c <= 'F')
+        d = static_cast<unsigned>(c - 'A' + 10);
+      else
+        return false;
+      v = (v << 4) | d;
+    }
+    out = v;
+    return true;
+  }
+
+  static void _appendUtf8(std::string &s, unsigned cp)
+  {
+    if (cp < 0x80)
+    {
+      s += static_cast<char>(cp);
+    }
+    else if (cp < 0x800)
+    {
+      s += static_cast<char>(0xC0 | (cp >> 6));
+      s += static_cast<char>(0x80 | (cp & 0x3F));
+    }
+    else if (cp < 0x10000)
+    {
+      s += static_cast<char>(0xE0 | (cp >> 12));
+      s += static_cast<char>(0x80 | ((cp >> 6) & 0x3F));
+      s += static_cast<char>(0x80 | (cp & 0x3F));
+    }
+    else
+    {
+      s += static_cast<char>(0xF0 | (cp >> 18));
+      s += static_cast<char>(0x80 | ((cp >> 12) & 0x3F));
+      s += static_cast<char>(0x80 | ((cp >> 6) & 0x3F));
+      s += static_cast<char>(0x80 | (cp & 0x3F));
+    }
   }
 
   bool _parseArray(Json &out, std::size_t depth)
